@@ -15,7 +15,7 @@ import os
 import re
 import shutil
 
-from vlib import cli, common, corpus, emit, evo, modelgen, mut, rt, values
+from vlib import cli, common, corpus, cxx, emit, evo, modelgen, mut, rt, values
 from vlib.common import pmap, rng, Inconclusive
 from vlib.model import *  # noqa
 from vlib.refcodec import Codec, CodecError
@@ -434,6 +434,69 @@ def watch_session(ctx, key, info, pkg, p2, wroot, want, home) -> bool:
         w.stop()
 
 
+def previous_version_schemas(ctx, home, quick):
+    """chains M0 -> M1 -> M2 -> M3 of evolution edits: the schema a version's generated code embeds is the same whether that version is generated alone, generated
+    with its own predecessors listed, or appears as a previous version of a later package (the `previous_schemas_` table of the later package's generated C++):
+    a stream written by any of these trees is recognised by all the others."""
+    def cpp_schemas(root):
+        cc = open(os.path.join(root, "out/cpp/protocols.cc")).read()
+        cur = {m.group(1): m.group(2) for m in re.finditer(r'std::string (\w+)WriterBase::schema_ = R"\((.*?)\)";', cc, re.S)}
+        prev = {}
+        for m in re.finditer(r'std::vector<std::string> (\w+)(Writer|Reader)Base::previous_schemas_ = \{\n(.*?)\n\};', cc, re.S):
+            entries = []
+            for e in re.finditer(r'R"\((.*?)\)",|(\w+)WriterBase::schema_,', m.group(3), re.S):
+                entries.append(e.group(1) if e.group(1) is not None else cur.get(e.group(2)))
+            prev[(m.group(1), m.group(2))] = entries
+        return cur, prev
+
+    def gen(root, chain_upto, with_versions):
+        shutil.rmtree(root, ignore_errors=True)
+        outs = emit.default_outputs("../out", python=False, cpp_opts=cxx.cpp_gen_options({"generateNDJson": False}))
+        files = evo.chain_files(chain_upto if with_versions else chain_upto[-1:], outs)
+        common.write_tree(root, files)
+        p = cli.run_cli("generate", os.path.join(root, chain_upto[-1].dir), home)
+        ctx.ev()
+        return p
+
+    def one(ci):
+        key = "c04pv_%d_%d" % (common.seed(), ci)
+        chain = evo.gen_chain(key, length=4, edits_per_step=2 + ci % 3)
+        base = os.path.join(ctx.workdir, "cases", key)
+        p = gen(os.path.join(base, "newest"), chain, True)
+        if p.rc != 0:
+            ctx.count("previous-schemas.chain-rejected")
+            shutil.rmtree(base, ignore_errors=True)
+            return
+        cur_new, prev_new = cpp_schemas(os.path.join(base, "newest"))
+        edits = [e["name"] for m in chain[1:] for e in m.edits]
+        bad = False
+        for i in range(len(chain) - 1):
+            alone = gen(os.path.join(base, "alone_%d" % i), chain[: i + 1], False)
+            listed = gen(os.path.join(base, "listed_%d" % i), chain[: i + 1], True) if i >= 1 else alone
+            if alone.rc != 0 or listed.rc != 0:
+                raise Inconclusive("%s: version %d does not generate on its own: %s" % (key, i, cli.clean((alone if alone.rc else listed).stderr)[:300]))
+            cur_a, _ = cpp_schemas(os.path.join(base, "alone_%d" % i))
+            cur_l, _ = cpp_schemas(os.path.join(base, "listed_%d" % i)) if i >= 1 else (cur_a, None)
+            for pn, text in cur_a.items():
+                ctx.case((key, i, pn))
+                ctx.count("previous-schemas.compared")
+                case = {"case_dir": base, "chain_edits": edits, "version": i, "protocol": pn}
+                if cur_l.get(pn) != text:
+                    ctx.violation("schema-depends-on-listed-versions", "chain %s (%s): the schema that version %d's generated code embeds for %s differs between generating it alone and with its predecessors listed" % (key, edits, i, pn), case)
+                    bad = True
+                for role in ("Writer", "Reader"):
+                    ent = prev_new.get((pn, role))
+                    if ent is None:
+                        continue        # the protocol no longer exists in the newest version
+                    if i >= len(ent) or ent[i] != text:
+                        ctx.violation("previous-schema-differs:%s" % role.lower(), "chain %s (%s): the newest package's %s records for previous version %d of %s a schema that differs from what that version's own generated code embeds" % (
+                            key, edits, role.lower(), i, pn), dict(case, recorded=(ent[i] if i < len(ent) else None), own=text))
+                        bad = True
+        if not bad:
+            shutil.rmtree(base, ignore_errors=True)
+    pmap(one, range(4 if quick else 60), workers=6)
+
+
 def run(ctx):
     common.build_yardl()
     quick = ctx.tier == "quick"
@@ -571,6 +634,7 @@ def run(ctx):
         shutil.rmtree(root0, ignore_errors=True)
         return {"base": key, "protocols": protos, "schema_bytes": {pn: len(base_s[pn]["cpp"]) for pn in protos}}
 
+    previous_version_schemas(ctx, home, quick)
     for s in [x for x in pmap(one, bases, workers=8) if x][:6]:
         ctx.sample(s)
     same_name_scenario(ctx, home)
